@@ -19,10 +19,17 @@ import (
 //     http.Transport / net.Dialer literal.
 //   - who calls transport.NewTransport in the whole repository, and the order of main: SetConfig is an
 //     unconditional top-level statement of main, and nothing before it can reach a NewTransport call.
-//   - proxy.httpProxyErrorHandler: the decision table from error class to status, and that it is the
-//     ErrorHandler of the ReverseProxy.
+//   - the ErrorHandler of the ReverseProxy literal in package proxy: its decision table from error class to
+//     status; the transport and request data flow inside HTTPProxy.ServeHTTP.
+//
+// Facts are about roles, not spellings: variables are identified by what they are (receiver, i-th parameter, "the
+// local assigned from p.Lookup", "the value handed to the reverse proxy as transport"), unexported functions by
+// what they do (the function that builds the ReverseProxy, the function that is its ErrorHandler), hoisted
+// locals and extracted straight-line helpers are followed to their defining expression (c19Resolve), and the
+// AST is normalised first (x.UseNormalizedAST). See design/C19.md, "Behaviour-preserving refactorings".
 func init() {
 	register("C19", func(x *X) error {
+		x.UseNormalizedAST() // named constants inlined, switch -> if chains
 		c19SetConfig(x)
 		c19NewTransport(x)
 		c19Order(x)
@@ -138,6 +145,189 @@ func c19SetConfig(x *X) {
 	x.defStr("setConfigLhsName", lhsName)
 }
 
+// ---------------------------------------------------------------------------------------------------------
+// shared: following an expression to its defining form, canonical rendering
+// ---------------------------------------------------------------------------------------------------------
+
+// c19Reassigned reports whether the variable behind id is assigned again (=, op=, ++/--) anywhere in fd.
+func c19Reassigned(fd *ast.FuncDecl, obj *ast.Object) bool {
+	found := false
+	ast.Inspect(fd.Body, func(n ast.Node) bool {
+		switch v := n.(type) {
+		case *ast.AssignStmt:
+			if v.Tok != token.DEFINE {
+				for _, l := range v.Lhs {
+					if id, ok := l.(*ast.Ident); ok && id.Obj == obj {
+						found = true
+					}
+				}
+			}
+		case *ast.IncDecStmt:
+			if id, ok := v.X.(*ast.Ident); ok && id.Obj == obj {
+				found = true
+			}
+		}
+		return true
+	})
+	return found
+}
+
+// c19StraightLine reports whether fd's body is local definitions followed by one single-result return, and
+// returns that result.
+func c19StraightLine(fd *ast.FuncDecl) (ast.Expr, bool) {
+	if fd == nil || fd.Body == nil || len(fd.Body.List) == 0 {
+		return nil, false
+	}
+	for i, st := range fd.Body.List {
+		last := i == len(fd.Body.List)-1
+		switch v := st.(type) {
+		case *ast.AssignStmt:
+			if v.Tok != token.DEFINE || last {
+				return nil, false
+			}
+		case *ast.DeclStmt:
+			if last {
+				return nil, false
+			}
+		case *ast.ReturnStmt:
+			if !last || len(v.Results) != 1 {
+				return nil, false
+			}
+			return v.Results[0], true
+		default:
+			return nil, false
+		}
+	}
+	return nil, false
+}
+
+// c19Resolve follows e, inside function fd of package dir, to its defining expression: through parentheses,
+// through a local that is defined once and never reassigned (hoisted sub-expression), and through a call to an
+// unexported function of the same package whose body is straight-line (extracted helper). It returns the
+// expression and the function in whose scope it is written.
+func c19Resolve(x *X, dir string, fd *ast.FuncDecl, e ast.Expr, depth int) (ast.Expr, *ast.FuncDecl) {
+	if depth > 6 || e == nil {
+		return e, fd
+	}
+	switch v := e.(type) {
+	case *ast.ParenExpr:
+		return c19Resolve(x, dir, fd, v.X, depth+1)
+	case *ast.Ident:
+		if v.Obj == nil || v.Obj.Kind != ast.Var {
+			return e, fd
+		}
+		switch d := v.Obj.Decl.(type) {
+		case *ast.AssignStmt:
+			if d.Tok == token.DEFINE && len(d.Lhs) == len(d.Rhs) && !c19Reassigned(fd, v.Obj) {
+				for i, l := range d.Lhs {
+					if id, ok := l.(*ast.Ident); ok && id.Obj == v.Obj {
+						return c19Resolve(x, dir, fd, d.Rhs[i], depth+1)
+					}
+				}
+			}
+		case *ast.ValueSpec:
+			if len(d.Names) == len(d.Values) && !c19IsPackageLevel(x, dir, d) && !c19Reassigned(fd, v.Obj) {
+				for i, n := range d.Names {
+					if n.Obj == v.Obj {
+						return c19Resolve(x, dir, fd, d.Values[i], depth+1)
+					}
+				}
+			}
+		}
+	case *ast.CallExpr:
+		if id, ok := v.Fun.(*ast.Ident); ok && !ast.IsExported(id.Name) && (id.Obj == nil || id.Obj.Kind == ast.Fun) {
+			if callee := x.anyFuncDecl(dir, id.Name); callee != nil && callee.Recv == nil && callee != fd {
+				if ret, ok := c19StraightLine(callee); ok {
+					return c19Resolve(x, dir, callee, ret, depth+1)
+				}
+			}
+		}
+	}
+	return e, fd
+}
+
+func c19StripAddr(e ast.Expr) ast.Expr {
+	for {
+		switch v := e.(type) {
+		case *ast.ParenExpr:
+			e = v.X
+		case *ast.UnaryExpr:
+			if v.Op != token.AND {
+				return e
+			}
+			e = v.X
+		default:
+			return e
+		}
+	}
+}
+
+// c19Canon renders an expression with variable spellings removed: a variable is "_" and a selection from a
+// variable keeps the selected field names only (`t.Host` → `.Host`); package-qualified names, literals, nil,
+// true and false stay; the elements of a composite literal are sorted by key.
+func c19Canon(x *X, e ast.Expr) string {
+	switch v := e.(type) {
+	case nil:
+		return ""
+	case *ast.ParenExpr:
+		return c19Canon(x, v.X)
+	case *ast.BasicLit:
+		return v.Value
+	case *ast.Ident:
+		if v.Obj != nil && v.Obj.Kind == ast.Var {
+			return "_"
+		}
+		return v.Name
+	case *ast.SelectorExpr:
+		if id, ok := v.X.(*ast.Ident); ok {
+			if id.Obj != nil && id.Obj.Kind == ast.Var {
+				return "." + v.Sel.Name
+			}
+			return id.Name + "." + v.Sel.Name
+		}
+		return c19Canon(x, v.X) + "." + v.Sel.Name
+	case *ast.UnaryExpr:
+		return v.Op.String() + c19Canon(x, v.X)
+	case *ast.BinaryExpr:
+		return c19Canon(x, v.X) + " " + v.Op.String() + " " + c19Canon(x, v.Y)
+	case *ast.CompositeLit:
+		var els []string
+		for _, el := range v.Elts {
+			if kv, ok := el.(*ast.KeyValueExpr); ok {
+				els = append(els, x.src(kv.Key)+": "+c19Canon(x, kv.Value))
+			} else {
+				els = append(els, c19Canon(x, el))
+			}
+		}
+		sort.Strings(els)
+		return x.src(v.Type) + "{" + strings.Join(els, ", ") + "}"
+	case *ast.CallExpr:
+		var as []string
+		for _, a := range v.Args {
+			as = append(as, c19Canon(x, a))
+		}
+		return c19Canon(x, v.Fun) + "(" + strings.Join(as, ", ") + ")"
+	}
+	return x.src(e)
+}
+
+func c19PairList(name string, rows [][2]string) string {
+	var b strings.Builder
+	fmt.Fprintf(&b, "def %s : List (String × String) := [", name)
+	for i, r := range rows {
+		if i > 0 {
+			b.WriteString(", ")
+		}
+		fmt.Fprintf(&b, "(%s, %s)", leanStr(r[0]), leanStr(r[1]))
+	}
+	b.WriteString("]")
+	return b.String()
+}
+
+// ---------------------------------------------------------------------------------------------------------
+// NewTransport
+// ---------------------------------------------------------------------------------------------------------
+
 // c19CfgField matches `<root>.Proxy.<Field>` and returns root ident and Field.
 func c19CfgField(e ast.Expr) (*ast.Ident, string, bool) {
 	s1, ok := e.(*ast.SelectorExpr)
@@ -160,90 +350,144 @@ func c19NewTransport(x *X) {
 	if fd == nil || fd.Body == nil {
 		return
 	}
-	// the composite literal that is returned
-	var lit *ast.CompositeLit
-	for _, st := range fd.Body.List {
-		if rs, ok := st.(*ast.ReturnStmt); ok && len(rs.Results) == 1 {
-			e := rs.Results[0]
-			if u, ok := e.(*ast.UnaryExpr); ok && u.Op == token.AND {
-				e = u.X
+	// shape: local definitions, stores into fields of the value that is returned, one return
+	var ret ast.Expr
+	type fieldStore struct {
+		obj *ast.Object
+		key string
+		val ast.Expr
+	}
+	var stores []fieldStore
+	shape := "straight-line"
+	for i, st := range fd.Body.List {
+		switch v := st.(type) {
+		case *ast.AssignStmt:
+			if v.Tok == token.DEFINE {
+				continue
 			}
-			if cl, ok := e.(*ast.CompositeLit); ok && x.src(cl.Type) == "http.Transport" {
-				lit = cl
+			ok := v.Tok == token.ASSIGN && len(v.Lhs) == 1 && len(v.Rhs) == 1
+			if ok {
+				sel, isSel := v.Lhs[0].(*ast.SelectorExpr)
+				id, isID := (ast.Expr)(nil), false
+				if isSel {
+					var idn *ast.Ident
+					idn, isID = sel.X.(*ast.Ident)
+					if isID && idn.Obj != nil {
+						stores = append(stores, fieldStore{idn.Obj, sel.Sel.Name, v.Rhs[0]})
+						continue
+					}
+				}
+				_ = id
 			}
+			shape = "other: " + x.src(st)
+		case *ast.DeclStmt:
+		case *ast.ReturnStmt:
+			if i != len(fd.Body.List)-1 || len(v.Results) != 1 {
+				shape = "other: early or multi-value return"
+			} else {
+				ret = v.Results[0]
+			}
+		default:
+			shape = "other: " + x.src(st)
 		}
 	}
-	if lit == nil {
-		x.fail("transport.NewTransport no longer returns an &http.Transport{…} literal")
+	x.defStr("newTransportShape", shape)
+	if ret == nil {
+		x.fail("transport.NewTransport: no final single-value return")
 		return
 	}
-	if len(fd.Body.List) != 1 {
-		x.fail("transport.NewTransport has more than the single return statement (fields could be changed after the literal)")
+	var retObj *ast.Object
+	if id, ok := ret.(*ast.Ident); ok {
+		retObj = id.Obj
 	}
-	type kv struct{ k, v string }
-	var fields []kv
+	re, rfd := c19Resolve(x, "transport", fd, ret, 0)
+	lit, ok := c19StripAddr(re).(*ast.CompositeLit)
+	if !ok || x.src(lit.Type) != "http.Transport" {
+		x.fail("transport.NewTransport does not return an http.Transport literal (possibly through a local or a straight-line helper): %s", x.src(re))
+		return
+	}
+	fields := map[string]string{}
 	cellName := ""
-	var walk func(prefix string, cl *ast.CompositeLit)
-	walk = func(prefix string, cl *ast.CompositeLit) {
+	var leaf func(key string, scope *ast.FuncDecl, val ast.Expr)
+	var walk func(prefix string, scope *ast.FuncDecl, cl *ast.CompositeLit)
+	leaf = func(key string, scope *ast.FuncDecl, val ast.Expr) {
+		v, vfd := c19Resolve(x, "transport", scope, val, 0)
+		if root, f, ok := c19CfgField(v); ok {
+			b := c19Binding(x, "transport", vfd, root)
+			if b != "packageVar" {
+				x.fail("NewTransport: %s reads %s which is %s, not the package-level configuration", key, x.src(v), b)
+			}
+			if cellName == "" {
+				cellName = root.Name
+			} else if cellName != root.Name {
+				x.fail("NewTransport reads two different configuration variables: %s and %s", cellName, root.Name)
+			}
+			fields[key] = "Proxy." + f
+			return
+		}
+		// method value of a literal: (&net.Dialer{…}).Dial, possibly through a local or a helper
+		if sel, ok := v.(*ast.SelectorExpr); ok {
+			inner, ifd := c19Resolve(x, "transport", vfd, sel.X, 0)
+			if dl, ok := c19StripAddr(inner).(*ast.CompositeLit); ok {
+				walk(key+"="+x.src(dl.Type)+"."+sel.Sel.Name+":", ifd, dl)
+				return
+			}
+		}
+		if id, ok := v.(*ast.Ident); ok && vfd == fd && c19Binding(x, "transport", fd, id) == "param" {
+			fields[key] = "$param"
+			return
+		}
+		fields[key] = "expr:" + c19Canon(x, v)
+	}
+	walk = func(prefix string, scope *ast.FuncDecl, cl *ast.CompositeLit) {
 		for _, el := range cl.Elts {
 			p, ok := el.(*ast.KeyValueExpr)
 			if !ok {
 				x.fail("NewTransport: positional element %s", x.src(el))
 				continue
 			}
-			key := prefix + x.src(p.Key)
-			if root, f, ok := c19CfgField(p.Value); ok {
-				b := c19Binding(x, "transport", fd, root)
-				if b != "packageVar" {
-					x.fail("NewTransport: %s reads %s which is %s, not the package-level configuration", key, x.src(p.Value), b)
-				}
-				if cellName == "" {
-					cellName = root.Name
-				} else if cellName != root.Name {
-					x.fail("NewTransport reads two different configuration variables: %s and %s", cellName, root.Name)
-				}
-				fields = append(fields, kv{key, "Proxy." + f})
-				continue
-			}
-			// (&net.Dialer{…}).Dial
-			if sel, ok := p.Value.(*ast.SelectorExpr); ok {
-				inner := sel.X
-				if pe, ok := inner.(*ast.ParenExpr); ok {
-					inner = pe.X
-				}
-				if u, ok := inner.(*ast.UnaryExpr); ok && u.Op == token.AND {
-					inner = u.X
-				}
-				if dl, ok := inner.(*ast.CompositeLit); ok {
-					walk(key+"="+x.src(dl.Type)+"."+sel.Sel.Name+":", dl)
-					continue
-				}
-			}
-			if id, ok := p.Value.(*ast.Ident); ok && c19Binding(x, "transport", fd, id) == "param" {
-				fields = append(fields, kv{key, "$param"})
-				continue
-			}
-			fields = append(fields, kv{key, "expr:" + x.src(p.Value)})
+			leaf(prefix+x.src(p.Key), scope, p.Value)
 		}
 	}
-	walk("", lit)
-	sort.Slice(fields, func(i, j int) bool { return fields[i].k < fields[j].k })
-	var b strings.Builder
-	b.WriteString("def transportFields : List (String × String) := [")
-	for i, f := range fields {
-		if i > 0 {
-			b.WriteString(", ")
+	walk("", rfd, lit)
+	for _, s := range stores {
+		if retObj == nil || s.obj != retObj {
+			x.fail("NewTransport: store into a field of something that is not the returned transport: .%s", s.key)
+			continue
 		}
-		fmt.Fprintf(&b, "(%s, %s)", leanStr(f.k), leanStr(f.v))
+		leaf(s.key, fd, s.val)
 	}
-	b.WriteString("]")
-	x.defRaw(b.String())
+	var keys []string
+	for k := range fields {
+		keys = append(keys, k)
+	}
+	sort.Strings(keys)
+	var rows [][2]string
+	for _, k := range keys {
+		rows = append(rows, [2]string{k, fields[k]})
+	}
+	x.defRaw(c19PairList("transportFields", rows))
 	x.defStr("cellVarName", cellName)
-	// the cell's initial value: &config.Config{} (every option zero)
+	// the cell's initial value: a zero config.Config (&config.Config{} or new(config.Config))
+	zero := false
 	if e := x.valueSpec("transport", cellName); e != nil {
-		x.defStr("cellInit", x.src(e))
+		switch v := e.(type) {
+		case *ast.UnaryExpr:
+			if cl, ok := v.X.(*ast.CompositeLit); ok && v.Op == token.AND && len(cl.Elts) == 0 && x.src(cl.Type) == "config.Config" {
+				zero = true
+			}
+		case *ast.CallExpr:
+			if x.src(v.Fun) == "new" && len(v.Args) == 1 && x.src(v.Args[0]) == "config.Config" {
+				zero = true
+			}
+		}
 	}
+	x.defBool("cellInitIsZeroConfig", zero)
 }
+
+// ---------------------------------------------------------------------------------------------------------
+// call sites and the order of main
+// ---------------------------------------------------------------------------------------------------------
 
 // c19RepoDirs lists the package directories of the repository (no vendor, no hidden, no testdata).
 func c19RepoDirs(x *X) []string {
@@ -298,11 +542,64 @@ func c19FuncName(fd *ast.FuncDecl) string {
 	return fd.Name.Name
 }
 
+// c19Dest says where the result of call c (inside fd) ends up: the key of the composite-literal element or the
+// field of the assignment it is the value of, directly or through a local that is defined from it.
+func c19Dest(fd *ast.FuncDecl, c *ast.CallExpr) string {
+	dest := "?"
+	var local *ast.Object
+	ast.Inspect(fd.Body, func(n ast.Node) bool {
+		switch v := n.(type) {
+		case *ast.KeyValueExpr:
+			if v.Value == ast.Expr(c) {
+				if k, ok := v.Key.(*ast.Ident); ok {
+					dest = k.Name
+				}
+			}
+		case *ast.AssignStmt:
+			for i, r := range v.Rhs {
+				if r != ast.Expr(c) || i >= len(v.Lhs) {
+					continue
+				}
+				switch l := v.Lhs[i].(type) {
+				case *ast.SelectorExpr:
+					dest = l.Sel.Name
+				case *ast.Ident:
+					local = l.Obj
+				}
+			}
+		}
+		return true
+	})
+	if local != nil {
+		ast.Inspect(fd.Body, func(n ast.Node) bool {
+			switch v := n.(type) {
+			case *ast.KeyValueExpr:
+				if id, ok := v.Value.(*ast.Ident); ok && id.Obj == local {
+					if k, ok := v.Key.(*ast.Ident); ok {
+						dest = k.Name
+					}
+				}
+			case *ast.AssignStmt:
+				for i, r := range v.Rhs {
+					if id, ok := r.(*ast.Ident); ok && id.Obj == local && i < len(v.Lhs) {
+						if l, ok := v.Lhs[i].(*ast.SelectorExpr); ok {
+							dest = l.Sel.Name
+						}
+					}
+				}
+			}
+			return true
+		})
+	}
+	return dest
+}
+
 func c19Order(x *X) {
 	dirs := c19RepoDirs(x)
-	// 1. every call of transport.NewTransport / transport.SetConfig in the repository, by enclosing function
-	var newCallers, setCallers []string
-	type argRow struct{ caller, dest, arg string }
+	// 1. every call of transport.NewTransport / transport.SetConfig in the repository: per package, with the
+	//    field the result is stored in and the (canonical) TLS argument
+	var newSites, setCallers []string
+	type argRow struct{ pkg, dest, arg string }
 	var argRows []argRow
 	imports := map[string][]string{} // dir -> internal package dirs it imports
 	for _, dir := range dirs {
@@ -326,72 +623,51 @@ func c19Order(x *X) {
 			if tn == "" && dir != "transport" {
 				continue
 			}
-			isNew := func(e ast.Expr) (*ast.CallExpr, bool) {
-				c, ok := e.(*ast.CallExpr)
-				if !ok {
-					return nil, false
-				}
+			callee := func(c *ast.CallExpr) string {
 				if sel, ok := c.Fun.(*ast.SelectorExpr); ok && tn != "" {
-					if id, ok := sel.X.(*ast.Ident); ok && id.Name == tn && id.Obj == nil && sel.Sel.Name == "NewTransport" {
-						return c, true
+					if id, ok := sel.X.(*ast.Ident); ok && id.Name == tn && id.Obj == nil {
+						return sel.Sel.Name
 					}
+				} else if id, ok := c.Fun.(*ast.Ident); ok && dir == "transport" {
+					return id.Name
 				}
-				return nil, false
+				return ""
 			}
-			note := func(where string, n ast.Node) {
-				ast.Inspect(n, func(n ast.Node) bool {
-					switch v := n.(type) {
-					case *ast.KeyValueExpr:
-						if c, ok := isNew(v.Value); ok && len(c.Args) == 1 {
-							argRows = append(argRows, argRow{pkgLabel + "." + where, x.src(v.Key), x.src(c.Args[0])})
-						}
-					case *ast.AssignStmt:
-						for i, r := range v.Rhs {
-							if c, ok := isNew(r); ok && len(c.Args) == 1 && i < len(v.Lhs) {
-								argRows = append(argRows, argRow{pkgLabel + "." + where, x.src(v.Lhs[i]), x.src(c.Args[0])})
-							}
-						}
-					}
+			for _, d := range f.Decls {
+				fd, isFn := d.(*ast.FuncDecl)
+				ast.Inspect(d, func(n ast.Node) bool {
 					c, ok := n.(*ast.CallExpr)
 					if !ok {
 						return true
 					}
-					name := ""
-					if sel, ok := c.Fun.(*ast.SelectorExpr); ok && tn != "" {
-						if id, ok := sel.X.(*ast.Ident); ok && id.Name == tn && id.Obj == nil {
-							name = sel.Sel.Name
-						}
-					} else if id, ok := c.Fun.(*ast.Ident); ok && dir == "transport" {
-						name = id.Name
-					}
-					switch name {
+					switch callee(c) {
 					case "NewTransport":
-						newCallers = append(newCallers, pkgLabel+"."+where)
+						newSites = append(newSites, pkgLabel)
+						if isFn && fd.Body != nil && len(c.Args) == 1 {
+							a, _ := c19Resolve(x, dir, fd, c.Args[0], 0)
+							argRows = append(argRows, argRow{pkgLabel, c19Dest(fd, c), c19Canon(x, a)})
+						} else {
+							argRows = append(argRows, argRow{pkgLabel, "<package-level initialiser>", ""})
+						}
 					case "SetConfig":
+						where := "<package-level initialiser>"
+						if isFn {
+							where = c19FuncName(fd)
+						}
 						setCallers = append(setCallers, pkgLabel+"."+where)
 					}
 					return true
 				})
 			}
-			for _, d := range f.Decls {
-				switch v := d.(type) {
-				case *ast.FuncDecl:
-					if v.Body != nil {
-						note(c19FuncName(v), v.Body)
-					}
-				case *ast.GenDecl:
-					note("<package-level initialiser>", v)
-				}
-			}
 		}
 	}
-	sort.Strings(newCallers)
+	sort.Strings(newSites)
 	sort.Strings(setCallers)
-	x.defStrList("newTransportCallers", newCallers)
+	x.defStrList("newTransportCallSitePackages", newSites)
 	x.defStrList("setConfigCallers", setCallers)
 	sort.Slice(argRows, func(i, j int) bool {
-		if argRows[i].caller != argRows[j].caller {
-			return argRows[i].caller < argRows[j].caller
+		if argRows[i].pkg != argRows[j].pkg {
+			return argRows[i].pkg < argRows[j].pkg
 		}
 		return argRows[i].dest < argRows[j].dest
 	})
@@ -401,7 +677,7 @@ func c19Order(x *X) {
 		if i > 0 {
 			ab.WriteString(", ")
 		}
-		fmt.Fprintf(&ab, "(%s, %s, %s)", leanStr(r.caller), leanStr(r.dest), leanStr(r.arg))
+		fmt.Fprintf(&ab, "(%s, %s, %s)", leanStr(r.pkg), leanStr(r.dest), leanStr(r.arg))
 	}
 	ab.WriteString("]")
 	x.defRaw(ab.String())
@@ -424,61 +700,22 @@ func c19Order(x *X) {
 		}
 	}
 
-	// 3. main: the statement that calls SetConfig, what runs before it
+	// 3. main: the statement that calls SetConfig (directly, or through one unexported helper of package main
+	//    that calls it unconditionally with one of its parameters), and what runs before it
 	fd := x.funcDecl(".", "", "main")
 	if fd == nil || fd.Body == nil {
 		return
 	}
-	var mainFile *ast.File
-	for _, f := range x.files(".") {
-		for _, d := range f.Decls {
-			if d == ast.Decl(fd) {
-				mainFile = f
+	fileOf := func(fn *ast.FuncDecl) *ast.File {
+		for _, f := range x.files(".") {
+			for _, d := range f.Decls {
+				if d == ast.Decl(fn) {
+					return f
+				}
 			}
 		}
+		return nil
 	}
-	tn := c19ImportName(mainFile, c19Module+"/transport")
-	isSet := func(c *ast.CallExpr) bool {
-		sel, ok := c.Fun.(*ast.SelectorExpr)
-		if !ok || sel.Sel.Name != "SetConfig" {
-			return false
-		}
-		id, ok := sel.X.(*ast.Ident)
-		return ok && tn != "" && id.Name == tn && id.Obj == nil
-	}
-	idx := -1
-	kind := "absent"
-	arg := ""
-	for i, st := range fd.Body.List {
-		found := false
-		ast.Inspect(st, func(n ast.Node) bool {
-			if c, ok := n.(*ast.CallExpr); ok && isSet(c) {
-				found = true
-			}
-			return true
-		})
-		if !found {
-			continue
-		}
-		if idx >= 0 {
-			kind = "more-than-once"
-			break
-		}
-		idx = i
-		kind = "nested:" + x.src(st)
-		if es, ok := st.(*ast.ExprStmt); ok {
-			if c, ok := es.X.(*ast.CallExpr); ok && isSet(c) && len(c.Args) == 1 {
-				kind = "top-level-unconditional"
-				arg = x.src(c.Args[0])
-			}
-		}
-	}
-	x.defStr("mainSetConfigStmt", kind)
-	x.defNat("mainSetConfigIndex", uint64(max(idx, 0)))
-	x.defStr("mainSetConfigArg", arg)
-
-	// the configuration handed to SetConfig is what config.Load returned
-	loadVar := ""
 	mainFuncs := map[string]*ast.FuncDecl{}
 	for _, f := range x.files(".") {
 		for _, d := range f.Decls {
@@ -487,55 +724,159 @@ func c19Order(x *X) {
 			}
 		}
 	}
-	var callsBefore, pkgsBefore, localsBefore []string
-	earlyExit := false // a return / exit before SetConfig is fine (nothing is built on that path either)
-	_ = earlyExit
-	seenPkg := map[string]bool{}
-	seenLocal := map[string]bool{}
-	if idx >= 0 {
-		for _, st := range fd.Body.List[:idx] {
-			if as, ok := st.(*ast.AssignStmt); ok && len(as.Rhs) == 1 && len(as.Lhs) >= 1 {
-				if c, ok := as.Rhs[0].(*ast.CallExpr); ok && x.src(c.Fun) == "config.Load" {
-					loadVar = x.src(as.Lhs[0])
+	isSetIn := func(file *ast.File) func(c *ast.CallExpr) bool {
+		tn := c19ImportName(file, c19Module+"/transport")
+		return func(c *ast.CallExpr) bool {
+			sel, ok := c.Fun.(*ast.SelectorExpr)
+			if !ok || sel.Sel.Name != "SetConfig" {
+				return false
+			}
+			id, ok := sel.X.(*ast.Ident)
+			return ok && tn != "" && id.Name == tn && id.Obj == nil
+		}
+	}
+	contains := func(st ast.Node, pred func(c *ast.CallExpr) bool) bool {
+		found := false
+		ast.Inspect(st, func(n ast.Node) bool {
+			if c, ok := n.(*ast.CallExpr); ok && pred(c) {
+				found = true
+			}
+			return true
+		})
+		return found
+	}
+	// topLevelSet finds the unique top-level `transport.SetConfig(arg)` statement of fn
+	topLevelSet := func(fn *ast.FuncDecl) (idx int, kind string, arg ast.Expr) {
+		isSet := isSetIn(fileOf(fn))
+		idx, kind = -1, "absent"
+		for i, st := range fn.Body.List {
+			if !contains(st, isSet) {
+				continue
+			}
+			if idx >= 0 {
+				return idx, "more-than-once", nil
+			}
+			idx, kind = i, "nested"
+			if es, ok := st.(*ast.ExprStmt); ok {
+				if c, ok := es.X.(*ast.CallExpr); ok && isSet(c) && len(c.Args) == 1 {
+					kind, arg = "top-level-unconditional", c.Args[0]
 				}
 			}
-			ast.Inspect(st, func(n ast.Node) bool {
-				switch v := n.(type) {
-				case *ast.CallExpr:
-					callsBefore = append(callsBefore, x.src(v.Fun))
-				case *ast.SelectorExpr:
-					if id, ok := v.X.(*ast.Ident); ok && id.Obj == nil {
-						ip := ""
-						for _, im := range mainFile.Imports {
+		}
+		return
+	}
+	idx, kind, argE := topLevelSet(fd)
+	var pre []ast.Stmt // everything that runs before SetConfig
+	arg := ""
+	if kind == "top-level-unconditional" {
+		pre = append(pre, fd.Body.List[:idx]...)
+		arg = x.src(argE)
+	} else if kind == "absent" {
+		// one level of "extract helper": main calls f(…, cfg, …) at top level and f calls SetConfig(param) at top level
+		for i, st := range fd.Body.List {
+			es, ok := st.(*ast.ExprStmt)
+			if !ok {
+				continue
+			}
+			c, ok := es.X.(*ast.CallExpr)
+			if !ok {
+				continue
+			}
+			id, ok := c.Fun.(*ast.Ident)
+			if !ok {
+				continue
+			}
+			h := mainFuncs[id.Name]
+			if h == nil || h.Body == nil || h == fd {
+				continue
+			}
+			hi, hk, ha := topLevelSet(h)
+			if hk == "absent" {
+				continue
+			}
+			idx, kind = i, "helper-"+hk
+			if hk != "top-level-unconditional" {
+				break
+			}
+			// which parameter of the helper is handed on?
+			pi := -1
+			if aid, ok := ha.(*ast.Ident); ok && h.Type.Params != nil {
+				k := 0
+				for _, f := range h.Type.Params.List {
+					for _, n := range f.Names {
+						if n.Obj == aid.Obj {
+							pi = k
+						}
+						k++
+					}
+				}
+			}
+			if pi < 0 || pi >= len(c.Args) {
+				kind = "helper-argument-not-a-parameter"
+				break
+			}
+			kind = "top-level-unconditional"
+			arg = x.src(c.Args[pi])
+			pre = append(pre, fd.Body.List[:i]...)
+			pre = append(pre, h.Body.List[:hi]...)
+			break
+		}
+	}
+	x.defStr("mainSetConfigStmt", kind)
+	x.defNat("mainSetConfigIndex", uint64(max(idx, 0)))
+	x.defStr("mainSetConfigArg", arg)
+
+	// the configuration handed to SetConfig is what config.Load returned
+	loadVar := ""
+	var callsBefore, pkgsBefore, localsBefore []string
+	seenPkg := map[string]bool{}
+	seenLocal := map[string]bool{}
+	mainFile := fileOf(fd)
+	for _, st := range pre {
+		if as, ok := st.(*ast.AssignStmt); ok && len(as.Rhs) == 1 && len(as.Lhs) >= 1 {
+			if c, ok := as.Rhs[0].(*ast.CallExpr); ok && x.src(c.Fun) == "config.Load" {
+				loadVar = x.src(as.Lhs[0])
+			}
+		}
+		ast.Inspect(st, func(n ast.Node) bool {
+			switch v := n.(type) {
+			case *ast.CallExpr:
+				callsBefore = append(callsBefore, x.src(v.Fun))
+			case *ast.SelectorExpr:
+				if id, ok := v.X.(*ast.Ident); ok && id.Obj == nil {
+					ip := ""
+					for _, f := range x.files(".") {
+						for _, im := range f.Imports {
 							p, _ := strconv.Unquote(im.Path.Value)
 							nm := p[strings.LastIndex(p, "/")+1:]
 							if im.Name != nil {
 								nm = im.Name.Name
 							}
-							if nm == id.Name {
+							if nm == id.Name && strings.HasPrefix(p, c19Module+"/") {
 								ip = p
 							}
 						}
-						if strings.HasPrefix(ip, c19Module+"/") {
-							d := strings.TrimPrefix(ip, c19Module+"/")
-							if !seenPkg[d] {
-								seenPkg[d] = true
-								pkgsBefore = append(pkgsBefore, d)
-							}
-						}
 					}
-				case *ast.Ident:
-					if _, ok := mainFuncs[v.Name]; ok && v.Obj != nil && !seenLocal[v.Name] {
-						if _, isFn := v.Obj.Decl.(*ast.FuncDecl); isFn {
-							seenLocal[v.Name] = true
-							localsBefore = append(localsBefore, v.Name)
+					if ip != "" {
+						d := strings.TrimPrefix(ip, c19Module+"/")
+						if !seenPkg[d] {
+							seenPkg[d] = true
+							pkgsBefore = append(pkgsBefore, d)
 						}
 					}
 				}
-				return true
-			})
-		}
+			case *ast.Ident:
+				if _, ok := mainFuncs[v.Name]; ok && v.Obj != nil && !seenLocal[v.Name] {
+					if _, isFn := v.Obj.Decl.(*ast.FuncDecl); isFn {
+						seenLocal[v.Name] = true
+						localsBefore = append(localsBefore, v.Name)
+					}
+				}
+			}
+			return true
+		})
 	}
+	_ = mainFile
 	x.defStr("mainLoadVar", loadVar)
 	x.defStrList("mainCallsBeforeSetConfig", callsBefore)
 	sort.Strings(pkgsBefore)
@@ -551,7 +892,7 @@ func c19Order(x *X) {
 	// functions of package main referenced before SetConfig (none today); they could reach the builders
 	sort.Strings(localsBefore)
 	x.defStrList("mainLocalFuncsBeforeSetConfig", localsBefore)
-	// package main: no init() and no package-level initialiser may reach transport (they run before main)
+	// package main: no init() may run before main and reach transport
 	var inits []string
 	for _, f := range x.files(".") {
 		for _, d := range f.Decls {
@@ -578,6 +919,10 @@ func c19Order(x *X) {
 	x.defStrList("transportImporters", direct)
 }
 
+// ---------------------------------------------------------------------------------------------------------
+// the reverse proxy: its constructor, its error handler
+// ---------------------------------------------------------------------------------------------------------
+
 var c19HTTPStatus = map[string]uint64{
 	"http.StatusInternalServerError": 500,
 	"http.StatusBadGateway":          502,
@@ -587,16 +932,106 @@ var c19HTTPStatus = map[string]uint64{
 	"http.StatusRequestTimeout":      408,
 }
 
+// c19ReverseProxy finds, in package proxy, the function that builds the httputil.ReverseProxy literal, the
+// index of its parameter that becomes the literal's Transport (-1 if it is not a parameter), and the function
+// that is its ErrorHandler (a declared function or a function literal).
+func c19ReverseProxy(x *X) (ctor *ast.FuncDecl, trParam int, handler *ast.FuncType, handlerBody *ast.BlockStmt, note string) {
+	trParam = -1
+	n := 0
+	for _, f := range x.files("proxy") {
+		for _, d := range f.Decls {
+			fd, ok := d.(*ast.FuncDecl)
+			if !ok || fd.Body == nil {
+				continue
+			}
+			ast.Inspect(fd.Body, func(m ast.Node) bool {
+				cl, ok := m.(*ast.CompositeLit)
+				if !ok || cl.Type == nil || x.src(cl.Type) != "httputil.ReverseProxy" {
+					return true
+				}
+				n++
+				ctor = fd
+				for _, el := range cl.Elts {
+					kv, ok := el.(*ast.KeyValueExpr)
+					if !ok {
+						continue
+					}
+					switch x.src(kv.Key) {
+					case "Transport":
+						v, vfd := c19Resolve(x, "proxy", fd, kv.Value, 0)
+						if id, ok := v.(*ast.Ident); ok && vfd == fd && fd.Type.Params != nil {
+							k := 0
+							for _, p := range fd.Type.Params.List {
+								for _, nm := range p.Names {
+									if nm.Obj == id.Obj {
+										trParam = k
+									}
+									k++
+								}
+							}
+						}
+					case "ErrorHandler":
+						switch v := kv.Value.(type) {
+						case *ast.FuncLit:
+							handler, handlerBody = v.Type, v.Body
+						case *ast.Ident:
+							if h := x.anyFuncDecl("proxy", v.Name); h != nil {
+								handler, handlerBody = h.Type, h.Body
+							}
+						}
+					}
+				}
+				return true
+			})
+		}
+	}
+	if n != 1 {
+		note = fmt.Sprintf("%d httputil.ReverseProxy literals in package proxy", n)
+	}
+	return
+}
+
 func c19ErrorHandler(x *X) {
-	fd := x.funcDecl("proxy", "", "httpProxyErrorHandler")
-	if fd == nil || fd.Body == nil {
+	ctor, trParam, ht, hb, note := c19ReverseProxy(x)
+	if note != "" {
+		x.fail("%s", note)
+	}
+	x.defBool("reverseProxyTransportIsParam", ctor != nil && trParam >= 0)
+	x.defBool("reverseProxyHasErrorHandler", hb != nil)
+	if hb == nil || ht.Params == nil {
+		x.fail("the ReverseProxy's ErrorHandler is not a function of package proxy")
 		return
 	}
-	if fd.Type.Params == nil || len(fd.Type.Params.List) != 3 {
-		x.fail("httpProxyErrorHandler: unexpected signature")
+	var pnames []*ast.Ident
+	for _, f := range ht.Params.List {
+		pnames = append(pnames, f.Names...)
+	}
+	if len(pnames) != 3 {
+		x.fail("ErrorHandler: unexpected signature")
 		return
 	}
+	wObj, errObj := pnames[0].Obj, pnames[2].Obj
+	isErr := func(e ast.Expr) bool {
+		id, ok := c19StripParen(e).(*ast.Ident)
+		return ok && id.Obj == errObj
+	}
+	// results of `v, ok := err.(net.Error)` anywhere in the handler
+	assertVal, assertOK := map[*ast.Object]bool{}, map[*ast.Object]bool{}
+	ast.Inspect(hb, func(n ast.Node) bool {
+		if as, ok := n.(*ast.AssignStmt); ok && len(as.Lhs) == 2 && len(as.Rhs) == 1 {
+			if ta, ok := as.Rhs[0].(*ast.TypeAssertExpr); ok && ta.Type != nil && isErr(ta.X) && x.src(ta.Type) == "net.Error" {
+				if a, ok := as.Lhs[0].(*ast.Ident); ok && a.Obj != nil {
+					assertVal[a.Obj] = true
+				}
+				if b, ok := as.Lhs[1].(*ast.Ident); ok && b.Obj != nil {
+					assertOK[b.Obj] = true
+				}
+			}
+		}
+		return true
+	})
 	status := func(e ast.Expr) (uint64, bool) {
+		e = c19StripParen(e)
 		s := x.src(e)
 		if v, ok := c19HTTPStatus[s]; ok {
 			return v, true
@@ -605,84 +1040,130 @@ func c19ErrorHandler(x *X) {
 			v, err := strconv.ParseUint(bl.Value, 10, 64)
 			return v, err == nil
 		}
-		if id, ok := e.(*ast.Ident); ok {
-			if ve := x.valueSpec("proxy", id.Name); ve != nil {
-				if bl, ok := ve.(*ast.BasicLit); ok && bl.Kind == token.INT {
-					v, err := strconv.ParseUint(bl.Value, 10, 64)
-					return v, err == nil
+		return 0, false
+	}
+	// canonical names of the conditions the handler tests, by meaning
+	var condName func(c ast.Expr) string
+	condName = func(c ast.Expr) string {
+		c = c19StripParen(c)
+		switch v := c.(type) {
+		case *ast.Ident:
+			if v.Obj != nil && assertOK[v.Obj] {
+				return "net.Error"
+			}
+		case *ast.CallExpr:
+			if sel, ok := v.Fun.(*ast.SelectorExpr); ok && sel.Sel.Name == "Timeout" && len(v.Args) == 0 {
+				if id, ok := c19StripParen(sel.X).(*ast.Ident); ok && id.Obj != nil && assertVal[id.Obj] {
+					return "Timeout"
+				}
+			}
+		case *ast.BinaryExpr:
+			if v.Op == token.EQL {
+				a, b := v.X, v.Y
+				if isErr(b) {
+					a, b = b, a
+				}
+				if isErr(a) {
+					switch x.src(c19StripParen(b)) {
+					case "io.EOF":
+						return "io.EOF"
+					case "context.Canceled":
+						return "context.Canceled"
+					}
 				}
 			}
 		}
-		x.fail("httpProxyErrorHandler: status expression %s not understood", s)
-		return 0, false
-	}
-	// canonical names of the conditions the handler tests
-	condName := func(s *ast.IfStmt) string {
-		c := x.src(s.Cond)
-		if s.Init != nil {
-			c = x.src(s.Init) + "; " + c
-		}
-		switch c {
-		case "e, ok := err.(net.Error); ok":
-			return "net.Error"
-		case "e.Timeout()":
-			return "Timeout"
-		case "err == io.EOF":
-			return "io.EOF"
-		case "err == context.Canceled":
-			return "context.Canceled"
-		}
-		return "?" + c
+		return "?" + c19Canon(x, c)
 	}
 	type row struct {
 		path string
 		code uint64
 	}
 	var rows []row
-	var statusVar string
+	var statusObj *ast.Object
 	var initCode uint64
-	written := ""
+	written := false
+	writtenIsStatus := false
 	var walk func(path string, b []ast.Stmt)
 	var walkIf func(path string, s *ast.IfStmt)
 	walkIf = func(path string, s *ast.IfStmt) {
-		n := condName(s)
-		walk(path+"/"+n, s.Body.List)
-		switch e := s.Else.(type) {
+		cond := c19StripParen(s.Cond)
+		var thenB []ast.Stmt = s.Body.List
+		els := s.Else
+		pos, neg := "", "!"
+		if u, ok := cond.(*ast.UnaryExpr); ok && u.Op == token.NOT {
+			cond = u.X
+			pos, neg = "!", ""
+		}
+		n := condName(cond)
+		walk(path+"/"+pos+n, thenB)
+		switch e := els.(type) {
 		case *ast.BlockStmt:
-			walk(path+"/!"+n, e.List)
+			// `else { if … }` is the same as `else if …`
+			if len(e.List) == 1 {
+				if inner, ok := e.List[0].(*ast.IfStmt); ok && inner.Init == nil {
+					walkIf(path+"/"+neg+n, inner)
+					return
+				}
+			}
+			walk(path+"/"+neg+n, e.List)
 		case *ast.IfStmt:
-			walkIf(path+"/!"+n, e)
+			walkIf(path+"/"+neg+n, e)
 		}
 	}
 	walk = func(path string, b []ast.Stmt) {
 		for _, st := range b {
 			switch s := st.(type) {
+			case *ast.BlockStmt:
+				walk(path, s.List)
+			case *ast.DeclStmt:
+				if gd, ok := s.Decl.(*ast.GenDecl); ok && path == "" && statusObj == nil {
+					for _, sp := range gd.Specs {
+						if vs, ok := sp.(*ast.ValueSpec); ok && len(vs.Names) == 1 && len(vs.Values) == 1 {
+							if v, ok := status(vs.Values[0]); ok {
+								statusObj, initCode = vs.Names[0].Obj, v
+							}
+						}
+					}
+				}
 			case *ast.AssignStmt:
 				if len(s.Lhs) == 1 && len(s.Rhs) == 1 {
-					name := x.src(s.Lhs[0])
-					if s.Tok == token.DEFINE && path == "" && statusVar == "" {
+					id, ok := s.Lhs[0].(*ast.Ident)
+					if !ok {
+						continue
+					}
+					if s.Tok == token.DEFINE && path == "" && statusObj == nil {
 						if v, ok := status(s.Rhs[0]); ok {
-							statusVar, initCode = name, v
+							statusObj, initCode = id.Obj, v
 						}
-					} else if s.Tok == token.ASSIGN && name == statusVar {
+					} else if s.Tok == token.ASSIGN && statusObj != nil && id.Obj == statusObj {
 						if v, ok := status(s.Rhs[0]); ok {
 							rows = append(rows, row{path, v})
+						} else {
+							x.fail("ErrorHandler: status expression %s not understood", x.src(s.Rhs[0]))
 						}
 					}
 				}
 			case *ast.IfStmt:
-				if path == "" && written != "" {
+				if path == "" && written {
 					continue // after WriteHeader: logging only
 				}
 				walkIf(path, s)
 			case *ast.ExprStmt:
-				if c, ok := s.X.(*ast.CallExpr); ok && strings.HasSuffix(x.src(c.Fun), ".WriteHeader") && len(c.Args) == 1 && path == "" {
-					written = x.src(c.Args[0])
+				if c, ok := s.X.(*ast.CallExpr); ok && len(c.Args) == 1 && path == "" {
+					if sel, ok := c.Fun.(*ast.SelectorExpr); ok && sel.Sel.Name == "WriteHeader" {
+						if id, ok := sel.X.(*ast.Ident); ok && id.Obj == wObj {
+							written = true
+							if a, ok := c19StripParen(c.Args[0]).(*ast.Ident); ok && statusObj != nil && a.Obj == statusObj {
+								writtenIsStatus = true
+							}
+						}
+					}
 				}
 			}
 		}
 	}
-	walk("", fd.Body.List)
+	walk("", hb.List)
 	x.defNat("errorHandlerDefault", initCode)
 	var b strings.Builder
 	b.WriteString("def errorHandlerTable : List (String × Nat) := [")
@@ -694,96 +1175,35 @@ func c19ErrorHandler(x *X) {
 	}
 	b.WriteString("]")
 	x.defRaw(b.String())
-	x.defBool("errorHandlerWritesStatusVar", written != "" && written == statusVar)
-
-	// the handler is the ErrorHandler of the ReverseProxy literal in proxy.newHTTPProxy, and the transport
-	// handed in is its Transport
-	np := x.funcDecl("proxy", "", "newHTTPProxy")
-	installed, trField := "", ""
-	if np != nil {
-		ast.Inspect(np, func(n ast.Node) bool {
-			if cl, ok := n.(*ast.CompositeLit); ok && x.src(cl.Type) == "httputil.ReverseProxy" {
-				for _, el := range cl.Elts {
-					if kv, ok := el.(*ast.KeyValueExpr); ok {
-						switch x.src(kv.Key) {
-						case "ErrorHandler":
-							installed = x.src(kv.Value)
-						case "Transport":
-							if id, ok := kv.Value.(*ast.Ident); ok && c19Binding(x, "proxy", np, id) == "param" {
-								trField = "$param"
-							} else {
-								trField = x.src(kv.Value)
-							}
-						}
-					}
-				}
-			}
-			return true
-		})
-	}
-	x.defStr("reverseProxyErrorHandler", installed)
-	// the transport selection in HTTPProxy.ServeHTTP: `tr := p.Transport` and the if-chain that follows it
-	var sel []string
-	if sh := x.funcDecl("proxy", "HTTPProxy", "ServeHTTP"); sh != nil && sh.Body != nil {
-		for i, st := range sh.Body.List {
-			as, ok := st.(*ast.AssignStmt)
-			if !ok || as.Tok != token.DEFINE || len(as.Lhs) != 1 || x.src(as.Lhs[0]) != "tr" {
-				continue
-			}
-			sel = append(sel, x.src(as))
-			if i+1 < len(sh.Body.List) {
-				if is, ok := sh.Body.List[i+1].(*ast.IfStmt); ok {
-					prefix := "if "
-					for is != nil {
-						sel = append(sel, prefix+x.src(is.Cond))
-						for _, b := range is.Body.List {
-							sel = append(sel, x.src(b))
-						}
-						switch e := is.Else.(type) {
-						case *ast.IfStmt:
-							is, prefix = e, "else if "
-						case *ast.BlockStmt:
-							sel = append(sel, "else")
-							for _, b := range e.List {
-								sel = append(sel, x.src(b))
-							}
-							is = nil
-						default:
-							is = nil
-						}
-					}
-				}
-			}
-			// any later plain assignment to tr would change the rule
-			for _, later := range sh.Body.List[i+2:] {
-				ast.Inspect(later, func(n ast.Node) bool {
-					if a, ok := n.(*ast.AssignStmt); ok && a.Tok == token.ASSIGN {
-						for _, l := range a.Lhs {
-							if x.src(l) == "tr" {
-								sel = append(sel, "later: "+x.src(a))
-							}
-						}
-					}
-					return true
-				})
-			}
-			break
-		}
-	}
-	if len(sel) == 0 {
-		x.fail("proxy.HTTPProxy.ServeHTTP: `tr := …` not found")
-	}
-	x.defStrList("transportSelection", sel)
-	x.defStr("reverseProxyTransport", trField)
+	x.defBool("errorHandlerWritesStatusVar", written && writtenIsStatus)
 }
 
-// c19ServeHTTP: the data flow of the transport and of the request inside HTTPProxy.ServeHTTP.
+func c19StripParen(e ast.Expr) ast.Expr {
+	for {
+		p, ok := e.(*ast.ParenExpr)
+		if !ok {
+			return e
+		}
+		e = p.X
+	}
+}
+
+// ---------------------------------------------------------------------------------------------------------
+// HTTPProxy.ServeHTTP: the data flow of the transport and of the request
+// ---------------------------------------------------------------------------------------------------------
+
+// c19ServeHTTP:
 //   - every construction or copy of an http.Transport (composite literal, .Clone()) in the packages on the
 //     request path (proxy, proxy/gzip, route, main): none besides transport.NewTransport's own literal;
-//   - the selected-transport variable is only ever assigned p.Transport / t.Transport / p.InsecureTransport and
-//     is what both reverse-proxy handlers receive;
-//   - the handler variable is only assigned the websocket handler, the reverse proxy and the gzip wrapper;
+//   - the value handed to the reverse-proxy constructor as transport ("tr") is only ever assigned the proxy's
+//     Transport / InsecureTransport fields or the target's Transport field, and every reverse-proxy constructor
+//     call receives it;
+//   - the handler variable (the one whose ServeHTTP is finally called with the request) is only assigned
+//     results of: the reverse-proxy constructor, other unexported constructors of the package, gzip.NewGzipHandler;
 //   - the request handed to the handler is the request received: no context.With*, no WithContext, no rebinding.
+//
+// Variables are named by role in the output: recv (receiver), w / req (parameters), target (the local assigned
+// from recv.Lookup(…)), tr, h.
 func c19ServeHTTP(x *X) {
 	var constructions []string
 	for _, dir := range []string{"proxy", "proxy/gzip", "route", "."} {
@@ -793,19 +1213,15 @@ func c19ServeHTTP(x *X) {
 		}
 		for _, f := range x.files(dir) {
 			for _, d := range f.Decls {
-				where := "<package level>"
-				if fd, ok := d.(*ast.FuncDecl); ok {
-					where = c19FuncName(fd)
-				}
 				ast.Inspect(d, func(n ast.Node) bool {
 					switch v := n.(type) {
 					case *ast.CompositeLit:
 						if v.Type != nil && x.src(v.Type) == "http.Transport" {
-							constructions = append(constructions, label+"."+where+": http.Transport literal")
+							constructions = append(constructions, label+": http.Transport literal")
 						}
 					case *ast.CallExpr:
 						if sel, ok := v.Fun.(*ast.SelectorExpr); ok && sel.Sel.Name == "Clone" && len(v.Args) == 0 {
-							constructions = append(constructions, label+"."+where+": "+x.src(v))
+							constructions = append(constructions, label+": .Clone()")
 						}
 					}
 					return true
@@ -816,17 +1232,143 @@ func c19ServeHTTP(x *X) {
 	sort.Strings(constructions)
 	x.defStrList("transportConstructionsOnRequestPath", constructions)
 
+	ctor, trParam, _, _, _ := c19ReverseProxy(x)
 	sh := x.funcDecl("proxy", "HTTPProxy", "ServeHTTP")
-	if sh == nil || sh.Body == nil || sh.Type.Params == nil || len(sh.Type.Params.List) != 2 || len(sh.Type.Params.List[1].Names) != 1 {
-		x.fail("proxy.HTTPProxy.ServeHTTP: unexpected shape")
+	if sh == nil || sh.Body == nil || sh.Type.Params == nil || ctor == nil {
+		x.fail("proxy.HTTPProxy.ServeHTTP or the reverse-proxy constructor not found")
 		return
 	}
-	reqName := sh.Type.Params.List[1].Names[0].Name
-	var trSources, handlerArgs, handlerAssigns, ctxDerivs, rebinds, serveArgs []string
+	recv, params, _ := x.LocalNames(sh)
+	if recv == "" || len(params) != 2 {
+		x.fail("proxy.HTTPProxy.ServeHTTP: unexpected signature")
+		return
+	}
+	ren := map[string]string{recv: "recv", params[0]: "w", params[1]: "req"}
+	reqName := params[1]
+	// roles of locals: target, tr, h
+	ctorCalls := func(n ast.Node) []*ast.CallExpr {
+		var out []*ast.CallExpr
+		ast.Inspect(n, func(m ast.Node) bool {
+			if c, ok := m.(*ast.CallExpr); ok {
+				if id, ok := c.Fun.(*ast.Ident); ok && id.Name == ctor.Name.Name && (id.Obj == nil || id.Obj.Kind == ast.Fun) {
+					out = append(out, c)
+				}
+			}
+			return true
+		})
+		return out
+	}
+	trName, hName := "", ""
+	ast.Inspect(sh.Body, func(n ast.Node) bool {
+		switch v := n.(type) {
+		case *ast.AssignStmt:
+			if len(v.Rhs) == 1 && len(v.Lhs) >= 1 {
+				if c, ok := v.Rhs[0].(*ast.CallExpr); ok {
+					if sel, ok := c.Fun.(*ast.SelectorExpr); ok && sel.Sel.Name == "Lookup" {
+						if id, ok := sel.X.(*ast.Ident); ok && id.Name == recv {
+							if l, ok := v.Lhs[0].(*ast.Ident); ok {
+								ren[l.Name] = "target"
+							}
+						}
+					}
+				}
+			}
+		case *ast.CallExpr:
+			if sel, ok := v.Fun.(*ast.SelectorExpr); ok && sel.Sel.Name == "ServeHTTP" && len(v.Args) == 2 {
+				if id, ok := sel.X.(*ast.Ident); ok {
+					if a, ok := v.Args[1].(*ast.Ident); ok && a.Name == reqName && id.Name != recv {
+						hName = id.Name
+					}
+				}
+			}
+		}
+		return true
+	})
+	var handlerArgs []string
+	for _, c := range ctorCalls(sh.Body) {
+		if trParam >= 0 && trParam < len(c.Args) {
+			if id, ok := c.Args[trParam].(*ast.Ident); ok && trName == "" {
+				trName = id.Name
+			}
+		}
+	}
+	if trName != "" {
+		ren[trName] = "tr"
+	}
+	if hName != "" {
+		ren[hName] = "h"
+	}
+	for _, c := range ctorCalls(sh.Body) {
+		if trParam >= 0 && trParam < len(c.Args) {
+			handlerArgs = append(handlerArgs, x.RenameLocals(c.Args[trParam], ren))
+		} else {
+			handlerArgs = append(handlerArgs, "?")
+		}
+	}
+	// unexported constructors of the package are numbered in order of first appearance
+	localNo := map[string]int{}
+	calleeRole := func(c *ast.CallExpr) string {
+		switch f := c.Fun.(type) {
+		case *ast.Ident:
+			if f.Name == ctor.Name.Name {
+				return "reverseProxy"
+			}
+			if !ast.IsExported(f.Name) && x.anyFuncDecl("proxy", f.Name) != nil {
+				if _, ok := localNo[f.Name]; !ok {
+					localNo[f.Name] = len(localNo) + 1
+				}
+				return fmt.Sprintf("local#%d", localNo[f.Name])
+			}
+			return f.Name
+		}
+		return x.src(c.Fun)
+	}
+	var trSources, handlerAssigns, ctxDerivs, rebinds, serveArgs, selection []string
 	seenSrc := map[string]bool{}
 	ctxFuncs := map[string]bool{"context.WithTimeout": true, "context.WithDeadline": true, "context.WithCancel": true,
 		"context.WithTimeoutCause": true, "context.WithDeadlineCause": true, "context.WithCancelCause": true,
 		"context.WithoutCancel": true, "context.WithValue": true, "context.Background": true, "context.TODO": true}
+	// a selection helper (`tr := p.pick(t)`): its return expressions are the sources, its parameters take the
+	// names of the arguments
+	sourcesOf := func(rhs ast.Expr) []string {
+		if c, ok := rhs.(*ast.CallExpr); ok {
+			name := ""
+			switch f := c.Fun.(type) {
+			case *ast.Ident:
+				name = f.Name
+			case *ast.SelectorExpr:
+				if id, ok := f.X.(*ast.Ident); ok && id.Name == recv {
+					name = f.Sel.Name
+				}
+			}
+			if name != "" && !ast.IsExported(name) {
+				if callee := x.anyFuncDecl("proxy", name); callee != nil {
+					cr, cp, _ := x.LocalNames(callee)
+					cren := map[string]string{}
+					if cr != "" {
+						cren[cr] = "recv"
+					}
+					for i, p := range cp {
+						if i < len(c.Args) {
+							cren[p] = x.RenameLocals(c.Args[i], ren)
+						}
+					}
+					var out []string
+					ast.Inspect(callee.Body, func(n ast.Node) bool {
+						if _, isLit := n.(*ast.FuncLit); isLit {
+							return false
+						}
+						if r, ok := n.(*ast.ReturnStmt); ok && len(r.Results) == 1 {
+							out = append(out, x.RenameLocals(r.Results[0], cren))
+						}
+						return true
+					})
+					return out
+				}
+			}
+		}
+		return []string{x.RenameLocals(rhs, ren)}
+	}
 	scan := func(fn string, body ast.Node, full bool) {
 		ast.Inspect(body, func(n ast.Node) bool {
 			switch v := n.(type) {
@@ -836,27 +1378,34 @@ func c19ServeHTTP(x *X) {
 				}
 				for i, l := range v.Lhs {
 					id, ok := l.(*ast.Ident)
-					if !ok || i >= len(v.Rhs) && len(v.Rhs) != 1 {
+					if !ok {
 						continue
 					}
-					rhs := v.Rhs[0]
-					if i < len(v.Rhs) {
+					var rhs ast.Expr
+					switch {
+					case i < len(v.Rhs):
 						rhs = v.Rhs[i]
+					case len(v.Rhs) == 1:
+						rhs = v.Rhs[0]
+					default:
+						continue
 					}
 					switch id.Name {
-					case "tr":
-						if s := x.src(rhs); !seenSrc[s] {
-							seenSrc[s] = true
-							trSources = append(trSources, s)
+					case trName:
+						for _, s := range sourcesOf(rhs) {
+							if !seenSrc[s] {
+								seenSrc[s] = true
+								trSources = append(trSources, s)
+							}
 						}
-					case "h":
+					case hName:
 						if c, ok := rhs.(*ast.CallExpr); ok {
-							handlerAssigns = append(handlerAssigns, x.src(c.Fun))
+							handlerAssigns = append(handlerAssigns, calleeRole(c))
 						} else {
-							handlerAssigns = append(handlerAssigns, "expr:"+x.src(rhs))
+							handlerAssigns = append(handlerAssigns, "expr:"+x.RenameLocals(rhs, ren))
 						}
 					case reqName:
-						rebinds = append(rebinds, x.src(v))
+						rebinds = append(rebinds, x.RenameLocals(v, ren))
 					}
 				}
 			case *ast.CallExpr:
@@ -866,36 +1415,99 @@ func c19ServeHTTP(x *X) {
 				}
 				if sel, ok := v.Fun.(*ast.SelectorExpr); ok {
 					switch sel.Sel.Name {
-					case "WithContext", "SetReadDeadline", "SetWriteDeadline", "SetDeadline":
-						ctxDerivs = append(ctxDerivs, fn+": "+fs)
+					case "WithContext":
+						ctxDerivs = append(ctxDerivs, fn+": ."+sel.Sel.Name)
+					case "SetReadDeadline", "SetWriteDeadline", "SetDeadline":
+						// in helpers these act on the raw connections of the websocket tunnel, not on the request
+						if fn != "helper" {
+							ctxDerivs = append(ctxDerivs, fn+": ."+sel.Sel.Name)
+						}
+					}
+					if full && sel.Sel.Name == "ServeHTTP" && len(v.Args) == 2 {
+						if id, ok := sel.X.(*ast.Ident); ok && id.Name == hName {
+							serveArgs = append(serveArgs, x.RenameLocals(v.Args[1], ren))
+						}
 					}
 				}
 				if fs == "http.TimeoutHandler" || fs == "time.AfterFunc" {
 					ctxDerivs = append(ctxDerivs, fn+": "+fs)
 				}
-				if full && fs == "newHTTPProxy" && len(v.Args) == 3 {
-					handlerArgs = append(handlerArgs, x.src(v.Args[1]))
-				}
-				if full && fs == "h.ServeHTTP" && len(v.Args) == 2 {
-					serveArgs = append(serveArgs, x.src(v.Args[1]))
-				}
 			}
 			return true
 		})
 	}
+	// ServeHTTP with helpers followed (extract/inline helper), the reverse-proxy constructor, the error handler
 	scan("ServeHTTP", sh.Body, true)
-	if np := x.funcDecl("proxy", "", "newHTTPProxy"); np != nil {
-		scan("newHTTPProxy", np.Body, false)
+	seenHelper := map[*ast.FuncDecl]bool{sh: true}
+	x.WalkInlined("proxy", sh, func(n ast.Node) bool {
+		if c, ok := n.(*ast.CallExpr); ok {
+			name := ""
+			switch f := c.Fun.(type) {
+			case *ast.Ident:
+				name = f.Name
+			case *ast.SelectorExpr:
+				name = f.Sel.Name
+			}
+			if name != "" && !ast.IsExported(name) {
+				if callee := x.anyFuncDecl("proxy", name); callee != nil && !seenHelper[callee] {
+					seenHelper[callee] = true
+					scan("helper", callee.Body, false)
+				}
+			}
+		}
+		return true
+	})
+	_, _, _, hb, _ := c19ReverseProxy(x)
+	if hb != nil {
+		scan("errorHandler", hb, false)
 	}
-	if eh := x.funcDecl("proxy", "", "httpProxyErrorHandler"); eh != nil {
-		scan("httpProxyErrorHandler", eh.Body, false)
+	// the selection statements, for the record (not pinned: every candidate carries the configuration)
+	for i, st := range sh.Body.List {
+		as, ok := st.(*ast.AssignStmt)
+		if !ok || as.Tok != token.DEFINE || len(as.Lhs) != 1 || x.src(as.Lhs[0]) != trName {
+			continue
+		}
+		selection = append(selection, x.RenameLocals(as, ren))
+		if i+1 < len(sh.Body.List) {
+			if is, ok := sh.Body.List[i+1].(*ast.IfStmt); ok {
+				prefix := "if "
+				for is != nil {
+					selection = append(selection, prefix+x.RenameLocals(is.Cond, ren))
+					for _, b := range is.Body.List {
+						selection = append(selection, x.RenameLocals(b, ren))
+					}
+					switch e := is.Else.(type) {
+					case *ast.IfStmt:
+						is, prefix = e, "else if "
+					default:
+						is = nil
+					}
+				}
+			}
+		}
+		break
 	}
 	sort.Strings(trSources)
+	// ctxDerivs may list a site twice (ServeHTTP body and helper scan): make it a set
+	sort.Strings(ctxDerivs)
+	var ctxSet []string
+	for i, s := range ctxDerivs {
+		if i == 0 || s != ctxDerivs[i-1] {
+			ctxSet = append(ctxSet, s)
+		}
+	}
 	x.defStrList("serveHTTPTransportSources", trSources)
 	x.defStrList("serveHTTPHandlerTransportArgs", handlerArgs)
 	x.defStrList("serveHTTPHandlerAssignments", handlerAssigns)
-	x.defStrList("serveHTTPContextDerivations", ctxDerivs)
+	x.defStrList("serveHTTPContextDerivations", ctxSet)
 	x.defStrList("serveHTTPRequestRebinds", rebinds)
 	x.defStrList("serveHTTPServeArgs", serveArgs)
-	x.defStr("serveHTTPRequestParam", reqName)
+	x.defStrList("transportSelection", selection)
+	targetFound := false
+	for _, v := range ren {
+		if v == "target" {
+			targetFound = true
+		}
+	}
+	x.defBool("serveHTTPRolesFound", trName != "" && hName != "" && targetFound)
 }
